@@ -84,7 +84,12 @@ type TypeInv struct {
 	Body    *Clause
 }
 
+type GhostField struct {
+	TypeKey, Name, Type, PkgPath string
+}
+
 type ContractSet struct {
+	Ghosts   []GhostField
 	Funcs    map[string]*Contract // full key -> contract
 	Specs    map[string]*SpecFunc // pkgpath + "." + name, and bare name for prelude
 	Lemmas   []*Lemma
@@ -116,7 +121,7 @@ func fullKey(pkgPath, key string) string {
 var clauseKeywords = map[string]bool{
 	"func": true, "spec": true, "lemma": true, "props": true, "requires": true, "ensures": true,
 	"modifies": true, "loop": true, "invariant": true, "decreases": true, "pure": true, "trusted": true,
-	"maypanic": true, "cover": true, "guardcall": true, "typeinv": true, "opt": true, "noverify": true, "package": true, "rec": true,
+	"maypanic": true, "cover": true, "guardcall": true, "ghost": true, "typeinv": true, "opt": true, "noverify": true, "package": true, "rec": true,
 }
 
 // ParseFile reads one contract file. pkgPath is the import path the file belongs to
@@ -204,6 +209,14 @@ func (cs *ContractSet) ParseFile(file, pkgPath string) error {
 			}
 			lm.Body = mk(strings.TrimSpace(rest[k+1:]))
 			cs.Lemmas = append(cs.Lemmas, lm)
+			cur, curLoop = nil, nil
+		case "ghost":
+			// ghost (pkg.Type) name type   -- a specification-only field, zero in fresh objects
+			f := strings.Fields(rest)
+			if len(f) < 3 {
+				return fmt.Errorf("%s:%d: ghost needs (Type) name type", file, ln)
+			}
+			cs.Ghosts = append(cs.Ghosts, GhostField{TypeKey: strings.Trim(f[0], "()"), Name: f[1], Type: strings.Join(f[2:], " "), PkgPath: pkgPath})
 			cur, curLoop = nil, nil
 		case "typeinv":
 			// typeinv T self: expr
